@@ -457,24 +457,55 @@ def check_valid(routine, A, opts, res):
     raise KeyError(routine)
 
 
-def input_class(routine, A, kind):
+def _rounding_split(vals, decimals, rounded=False):
+    """True iff two of the values are equal to working precision but np.round(., decimals) separates them.
+    rounded=True: the values are already rounded; look for two on adjacent grid points instead."""
+    v = np.sort(np.asarray(vals, dtype=float))
+    if v.size < 2 or not np.all(np.isfinite(v)):
+        return False
+    step = 10.0 ** (-decimals)
+    dv = np.diff(v)
+    if rounded:
+        return bool(np.any(np.abs(dv - step) <= 1e-2 * step))
+    rv = np.diff(np.round(v, decimals))
+    return bool(np.any((rv != 0) & (dv <= 64 * np.finfo(float).eps * np.maximum(1.0, np.abs(v[1:])))))
+
+
+def input_class(routine, A, kind, res=None):
     """Class of the input used in signatures: the generator's kind, refined where one kind mixes mechanisms."""
-    if routine == "sun_compact" and kind not in UNITARY_BAD:
-        A = np.asarray(A)
-        if A.ndim == 2 and A.shape[0] == A.shape[1] and _finite(A):
-            if np.isrealobj(A) and np.linalg.det(A) < 0:
-                return "real-negative-det"
-            if (A == 0).any():
-                return "exact-zeros"
+    A = np.asarray(A)
+    square = A.ndim == 2 and A.shape[0] == A.shape[1] and _finite(A)
+    if routine == "sun_compact" and kind not in UNITARY_BAD and kind != "too-small" and square:
+        if np.isrealobj(A) and np.linalg.det(A) < 0:
+            return "real-negative-det"
+        if A.shape[0] >= 8:
+            return "size-ge-8"
+        if (A == 0).any():
+            return "exact-zeros"
+    if routine in SYMM_ROUTINES and square and res is not None:
+        # singular values returned by takagi's complex branch are rounded to 13 decimals and were grouped by that rounding
+        try:
+            sv = np.asarray(res[0], dtype=float)
+            if routine != "takagi":
+                sv = np.tanh(-sv)
+            if _rounding_split(sv, 13, rounded=True):
+                return "rounding-boundary"
+        except Exception:  # noqa: BLE001
+            pass
+    if routine == "takagi" and square and np.iscomplexobj(A) and _rounding_split(np.linalg.svd(A, compute_uv=False), 13):
+        return "rounding-boundary"
+    if routine == "bloch_messiah" and square and np.isrealobj(A) and kind not in SYMP_BAD:
+        if _rounding_split(np.linalg.svd(A, compute_uv=False), 9):
+            return "rounding-boundary"
     return kind
 
 
 def evaluate(case):
     """Run one case on the implementation.  Returns (outcome, failure) where outcome is
     'ok' | 'rejected:<ExcType>' and failure is None or (signature, message)."""
-    out, fail = _evaluate(case)
+    out, fail, res = _evaluate(case)
     if fail is not None:
-        cls = input_class(case["routine"], mat_from_json(case["matrix"]), case.get("kind"))
+        cls = input_class(case["routine"], mat_from_json(case["matrix"]), case.get("kind"), res)
         sig = fail[0] if fail[0].endswith(":" + str(case.get("kind"))) and cls == case.get("kind") else "%s:%s" % (fail[0], cls)
         fail = (sig, fail[1])
     return out, fail
@@ -490,24 +521,24 @@ def _evaluate(case):
     except Exception as e:  # noqa: BLE001
         kind = type(e).__name__
         if valid is True:
-            return "rejected:" + kind, ("%s:valid-input-raises:%s" % (routine, kind), "valid %s input raised %s: %s" % (case.get("kind"), kind, str(e)[:200]))
-        return "rejected:" + kind, None
+            return "rejected:" + kind, ("%s:valid-input-raises:%s" % (routine, kind), "valid %s input raised %s: %s" % (case.get("kind"), kind, str(e)[:200])), None
+        return "rejected:" + kind, None, None
     if valid is False:
         # accepted an invalid input: only a violation if the result is then wrong
         try:
             check_valid(routine, A, opts, res)
-            return "ok", None
+            return "ok", None, res
         except Bad as b:
-            return "ok", ("%s:invalid-accepted:%s" % (routine, case.get("kind")), "invalid input (%s) was decomposed without an error, and wrongly: %s" % (case.get("kind"), b.msg))
+            return "ok", ("%s:invalid-accepted:%s" % (routine, case.get("kind")), "invalid input (%s) was decomposed without an error, and wrongly: %s" % (case.get("kind"), b.msg)), res
         except Exception as e:  # noqa: BLE001
-            return "ok", ("%s:invalid-accepted:%s" % (routine, case.get("kind")), "invalid input (%s) was decomposed without an error into malformed factors (%s)" % (case.get("kind"), type(e).__name__))
+            return "ok", ("%s:invalid-accepted:%s" % (routine, case.get("kind")), "invalid input (%s) was decomposed without an error into malformed factors (%s)" % (case.get("kind"), type(e).__name__)), res
     try:
         check_valid(routine, A, opts, res)
     except Bad as b:
         if valid is None:
-            return "ok", None
-        return "ok", ("%s:%s" % (routine, b.sig), b.msg)
-    return "ok", None
+            return "ok", None, res
+        return "ok", ("%s:%s" % (routine, b.sig), b.msg), res
+    return "ok", None, res
 
 
 # ------------------------------------------------------------------ generators
@@ -617,7 +648,7 @@ def gen_unitary(rs, kind, n):
 
 SYMM_KINDS = ["complex", "real", "real-psd", "degenerate-complex", "rank-deficient-complex", "rank-deficient-real", "zero",
               "identity", "adjacency", "adjacency-complex", "phase-adjacency", "diagonal-signed", "diagonal-complex", "swap",
-              "tiny", "large", "degenerate-real", "unitary-symmetric"]
+              "tiny", "large", "degenerate-real", "unitary-symmetric", "rounding-boundary"]
 SYMM_BAD = ["asymmetric", "non-square", "nan", "slightly-asymmetric"]
 
 
@@ -639,6 +670,14 @@ def gen_symmetric(rs, kind, n):
             d = np.sort(rs.randint(0 if kind.startswith("rank") else 1, 3, n).astype(float))[::-1]
             if kind.startswith("rank"):
                 d[-1] = 0.0
+        return U @ np.diag(d) @ U.T
+    if kind == "rounding-boundary":
+        # a degenerate singular value sitting exactly on a boundary of np.round(., 13)
+        U = haar(n, rs)
+        s0 = float(rs.randint(1000, 9000)) * 1e-4 + float(rs.randint(0, 10 ** 9)) * 1e-13 + 0.5e-13
+        d = np.full(n, s0)
+        if n >= 3:
+            d[-1] = 0.5 * s0
         return U @ np.diag(d) @ U.T
     if kind in ("degenerate-real", "rank-deficient-real"):
         q, _ = np.linalg.qr(rs.randn(n, n))
@@ -768,7 +807,7 @@ def _sym(A):
 
 
 SYMP_KINDS = ["random", "passive", "identity", "degenerate", "partially-passive", "diagonal-squeezer", "diagonal-antisqueezer",
-              "two-mode-squeezer", "passive-permutation", "mixed-degenerate", "near-passive"]
+              "two-mode-squeezer", "passive-permutation", "mixed-degenerate", "near-passive", "rounding-boundary"]
 SYMP_BAD = ["non-symplectic", "odd", "non-square", "scaled", "nan"]
 
 
@@ -783,6 +822,9 @@ def gen_symp(rs, kind, n):
         return np.eye(2 * n)
     if kind == "degenerate":
         return rand_symplectic(n, rs, np.full(n, float(np.exp(rs.uniform(0.2, 1.0)))))
+    if kind == "rounding-boundary":
+        s0 = 1.0 + float(rs.randint(1000, 9000)) * 1e-4 + float(rs.randint(0, 10 ** 5)) * 1e-9 + 0.5e-9
+        return rand_symplectic(n, rs, np.full(n, s0))
     if kind == "mixed-degenerate":
         s = np.exp(rs.randint(0, 3, n) * 0.4)
         return rand_symplectic(n, rs, s)
